@@ -4,6 +4,7 @@ package route
 
 import (
 	"net/http"
+	"os"
 	"regexp"
 	"strings"
 	"sync"
@@ -98,17 +99,17 @@ func VerifC17Retry() {
 	verifAssert(r.numDropBuffFull.Count() == 0, "nothing-dropped")
 	// every accepted metric acknowledged at least once
 	for i := 0; i < n; i++ {
-		verifAssert(strings.Contains("\n"+acked, "\n"+want[i]), "accepted-metric-acknowledged")
+		verifAssert(strings.Contains("\n"+acked, "\n"+want[i]), "structural/accepted-metric-acknowledged")
 	}
 	if n == 3 {
 		// a.x was received at positions 0 and 2: its first acknowledgement must come first
 		i0 := strings.Index("\n"+acked, "\n"+want[0])
 		i2 := strings.Index("\n"+acked, "\n"+want[2])
-		verifAssert(i0 >= 0 && i2 >= 0 && i0 < i2, "series-acknowledged-in-arrival-order")
+		verifAssert(i0 >= 0 && i2 >= 0 && i0 < i2, "structural/series-acknowledged-in-arrival-order")
 	}
-	verifAssert(strings.Count(acked, "\n") >= n, "all-metrics-acknowledged")
-	verifAssert(verifHTTPRetriedSameBatch(), "failed-batch-retried-not-skipped")
-	verifAssert(int(r.numErrFlush.Count()) == verifHTTPFailures(), "every-failure-counted")
+	verifAssert(strings.Count(acked, "\n") >= n, "structural/all-metrics-acknowledged")
+	verifAssert(verifHTTPRetriedSameBatch(), "structural/failed-batch-retried-not-skipped")
+	verifAssert(int(r.numErrFlush.Count()) == verifHTTPFailures(), "structural/every-failure-counted")
 	verifCover("end")
 }
 
@@ -164,7 +165,50 @@ func VerifC17Shutdown() {
 	verifAssert(err == nil, "shutdown-no-error")
 	if verifIsSymbolic() {
 		acked := string(verifHTTPAcked())
-		verifAssert(strings.Count(acked, "\n") == n, "shutdown-flushed-everything-buffered")
+		verifAssert(strings.Count(acked, "\n") == n, "structural/shutdown-flushed-everything-buffered")
+	}
+	verifCover("end")
+}
+
+func verifWriteFile(path, content string) {
+	f, err := os.Create(path)
+	if err != nil {
+		panic(err)
+	}
+	f.WriteString(content)
+	f.Close()
+}
+
+// VerifC17Stall: the route built by the real NewGrafanaNet survives an endpoint that starts answering
+// and then stalls: the request is abandoned after the configured timeout and retried, so every
+// accepted metric is still acknowledged and Shutdown returns.
+func VerifC17Stall() {
+	dir := verifTempDir()
+	verifWriteFile(dir+"/storage-schemas.conf", "[default]\npattern = .*\nretentions = 10s:1d\n")
+	verifWriteFile(dir+"/storage-aggregation.conf", "[default]\npattern = .*\nxFilesFactor = 0.5\naggregationMethod = avg\n")
+	cfg, err := NewGrafanaNetConfig("http://localhost/metrics", "key", dir+"/storage-schemas.conf", dir+"/storage-aggregation.conf")
+	if err != nil {
+		panic(err)
+	}
+	cfg.Concurrency = 1
+	cfg.BufSize = 4
+	cfg.FlushMaxNum = 1
+	cfg.Timeout = time.Second
+	m, _ := matcher.New("", "", "", "", "", "")
+	verifHTTPAllowStall(true)
+	verifHTTPMaxFailures(1)
+	rr, err := NewGrafanaNet("gnet", m, cfg)
+	if err != nil {
+		panic(err)
+	}
+	r := rr.(*GrafanaNet)
+	verifSettle()
+	r.Dispatch([]byte("a.x 1 1500000000"))
+	verifSettle()
+	err = r.Shutdown() // a worker stuck in a stalled exchange shows up as a deadlock here
+	verifAssert(err == nil, "shutdown-no-error")
+	if verifIsSymbolic() {
+		verifAssert(strings.Count(string(verifHTTPAcked()), "\n") == 1, "structural/metric-acknowledged-after-stalled-exchange")
 	}
 	verifCover("end")
 }
